@@ -19,6 +19,15 @@ Proof. vm_compute. reflexivity. Qed.
 Lemma limit_cases_match_model : forallb vcase_ok limit_cases = true.
 Proof. vm_compute. reflexivity. Qed.
 
+(* the recursion-depth checks: from_ast accepts an `n:` chain exactly when the model's bottom-up check does
+   (with the height the model computes), validate_non_top_level's depth verdicts equal validate_depth_ok *)
+Lemma depth_cases_match_model : forallb hcase_ok depth_cases = true.
+Proof. vm_compute. reflexivity. Qed.
+
+(* pkh / wpkh / sh(wpkh): max_weight_to_satisfy and max_satisfaction_weight are the model's constants *)
+Lemma keyonly_cases_match_model : forallb kcase_ok keyonly_cases = true.
+Proof. vm_compute. reflexivity. Qed.
+
 (* coverage of the theorem classes on this run's scripts: (cases, in ext_safe as_written, in ext_safe pre_fix) *)
 Eval vm_compute in (N.of_nat (length tree_cases), count_safe as_written tree_cases, count_safe pre_fix tree_cases).
 
